@@ -12,7 +12,7 @@ pub struct C04;
 const STEXT: [char; 8] = [' ', 'a', 'é', 'я', '一', '°', '-', '|'];
 
 fn is_label(c: char) -> bool {
-    matches!(c, 'a' | 'b' | 'é' | 'я' | '一' | '二' | 'z' | '1' | '°' | '&' | '\u{301}' | '\u{200d}')
+    matches!(c, 'a' | 'b' | 'é' | 'я' | '一' | '二' | 'z' | '1' | '°' | '&' | '\u{301}' | '\u{200d}' | '\u{d7ff}' | '\u{e000}' | '\u{fffd}') || c as u32 >= 0x10000
 }
 
 /// compare the text elements of `d` with the label characters of `input`
@@ -125,6 +125,16 @@ impl Prop for C04 {
                 }
             })
         }));
+        v.push(Scope::new("planes", "all rows up to length 3 over {a, space} and one character at and next to every boundary of the XML Char ranges and in every kind of supplementary block (U+D7FF, U+E000, U+FFFD, U+10000, U+10FFF, U+11005, U+1D49C, U+1F600, U+20BB7, U+10FFFD, U+10FFFF), alone and on a row of dashes", |f| {
+            let al = ['a', ' ', '\u{d7ff}', '\u{e000}', '\u{fffd}', '\u{10000}', '\u{10fff}', '\u{11005}', '\u{1d49c}', '\u{1f600}', '\u{20bb7}', '\u{10fffd}', '\u{10ffff}'];
+            enumr::strings_upto(&al, 3, &mut |s| {
+                let row: String = s.iter().collect();
+                if row.chars().any(|c| c as u32 > 0x7f) {
+                    f(Case::s(row.clone()));
+                    f(Case::s(format!("{}\n{}", row, "-".repeat(enumr::display_cols(&row).max(1)))));
+                }
+            })
+        }));
         v.push(Scope::new("two-text-rows", "all pairs of rows over {a,b,space} up to length 4, directly above each other (labels of adjacent rows must not be joined)", |f| {
             let mut rows: Vec<String> = vec![];
             enumr::strings_upto(&['a', 'b', ' '], 4, &mut |s| rows.push(s.iter().collect()));
@@ -158,6 +168,7 @@ impl Prop for C04 {
             let mut ds: Vec<String> = shapes::family_samples(8).into_iter().enumerate().filter(|(i, _)| i % step == 0).map(|(_, x)| x.1).collect();
             ds.extend(shapes::circle_defect_family(9).into_iter().step_by(step * 3));
             ds.extend(shapes::overlapping_bbox_family().into_iter().step_by(step * 2));
+            ds.extend(shapes::circle_rows_family().into_iter().filter(|d| enumr::extent(d).0 <= 12).step_by(if step > 1 { 2 } else { 1 }));
             for d in ds {
                 if d.contains('"') || d.contains('{') || d.chars().any(is_label) {
                     continue;
